@@ -54,6 +54,11 @@ def table_inputs():
     for dd in (60, 120, 400, 1000):
         out += ["<a " * dd + "/>" * dd, "<a b=" * dd + "x" + ">y</a>" * dd, "<a b=\"" * dd + "x" + "\">y</a>" * dd, "<a {{b|" * dd + "}}/>" * dd,
                 "{| a=<b c=" * dd + "x" + ">y</b>\n|}" * dd]
+    # entities written with non-ASCII digits / letters (str.isdigit, isdecimal, isalnum accept them; int() only some), NUL in tag names
+    for dg in ("\u0661\u0662\u0663", "\u06f6\u06f5", "\uff10\uff16\uff10", "\u0966\u096f", "\u00b2", "\u00b3", "\u2460", "1\u2070", "6\u0665", "\u0665\u0035"):
+        out += ["&#" + dg + ";", "x&#" + dg + ";y", "&#x" + dg + ";", "{{t|m&#" + dg + ";}}", "[[a|&#" + dg + ";]]", "&#0" + dg + ";"]
+    out += ["&\u00e1mp;", "&am\uff50;", "&sup2;", "&frac12;", "&there4;", "&sup\u00b2;", "&#x\uff21;", "&#x\uff41\uff11;"]
+    out += ["<a\x00b>x</a\x00b>", "</b\x00r >", "<b\x00>", "<br\x00/>", "x </b\x00r> y", "<\x00b>x</\x00b>", "ht\x00tp://a.b", "<nowiki\x00>x</nowiki\x00>"]
     # numeric entities with thousands of digits / leading zeros (int() refuses more than 4300 decimal digits)
     out += ["&#" + "9" * 5000 + ";", "&#x" + "f" * 5000 + ";", "&#" + "0" * 5000 + "65;", "&#x" + "0" * 5000 + "41;", "&#" + "0" * 4299 + "65;",
             "a&#" + "0" * 4400 + ";b", "&#123456789;", "&#x00110000;"]
@@ -138,7 +143,9 @@ def run_stream(c, tier, seed, kinds, nontrivial_rule, n_quick=60000, n_thorough=
     c.cov["distinct_nontrivial"] = len(seen)
     c.cov["rule"] = ("inputs: table-driven (every URI scheme x ':'/'://' x case x bracketed/free, every tag name of every class in open/close/"
                      "self-closing/unclosed/attribute forms x case, every named entity, numeric entities at the range boundaries, brace/bracket runs "
-                     "up to 257, heading levels 1-8) + a seeded stream: marker-heavy noise over multi-character atoms, grammar documents, mutated "
+                     "up to 257 and around the depth limit, heading levels 1-8, every Unicode white-space character and low-byte alias at every white-space test, "
+                     "numeric entities of thousands of digits, comments in retried routes, touching templates in names/keys, URLs ending in nodes, "
+                     "attribute nesting far beyond the depth limit) + a seeded stream: marker-heavy noise over multi-character atoms, grammar documents, mutated "
                      "documents, Unicode incl. U+0000, NEL, astral, lone surrogates; each with skip_style_tags (30%) and the external-link-URL "
                      "starting context (12%); both tokenizers. " + nontrivial_rule)
     c.cov["samples"] = [{"text": t, "context": cx, "skip_style_tags": sk} for (t, cx, sk) in items[-4:]]
